@@ -196,6 +196,49 @@ theorem symbol_in_range (s m x : Option Rat) (nb : Int) (hnb : 1 ≤ nb)
 example : symbol (some 1) (some 0) 4 (some (1/2)) = 2 ∧ symbol (some 1) (some 0) 4 (some 1) = 3
     ∧ symbol (some 1) (some 0) 4 none = 3 := by decide +kernel
 
+/-- the same with rounding after every floating-point operation.  For every
+rounding `rnd` that is monotone and maps 0 to 0 (every IEEE rounding mode is),
+every `scaling ≥ 0` and every sample `x ≥ range_min`, the symbol is **not
+negative** — no hypothesis about the format is left for this half.  The upper half
+needs that the rounded product of a representable `r < 1` with `n_bins` stays
+below `n_bins` (`hlt`; for binary64 and `n_bins < 2^31` this holds because
+`r ≤ 1 - 2^-53` puts `r·n_bins` below the midpoint between `n_bins` and its
+predecessor, and in `_mutual_information` the product of a float with an `int` is
+exact in double) — this hypothesis is *not* proved here (partial); the oracle
+stream drives `rescaled = 1 - 2^-53` through the real kernels. -/
+theorem symbolRnd_in_range_partial (rnd : Rat → Rat) (hmono : ∀ x y, x ≤ y → rnd x ≤ rnd y)
+    (h0 : rnd 0 = 0) (hidem : ∀ x, rnd (rnd x) = rnd x) (s m v : Rat) (nb : Int)
+    (hs : 0 ≤ s) (hv : m ≤ v) (hnb : 1 ≤ nb)
+    (hlt : ∀ r, 0 ≤ r → r < 1 → rnd r = r → rnd (r * (nb : Rat)) < (nb : Rat)) :
+    0 ≤ symbolRnd rnd s m nb v ∧ symbolRnd rnd s m nb v < nb := by
+  have hnbq : (0 : Rat) ≤ (nb : Rat) := by exact_mod_cast (by omega : (0:Int) ≤ nb)
+  have h1 : 0 ≤ rnd (v - m) := by
+    have := hmono 0 (v - m) (by grind)
+    rwa [h0] at this
+  have h2 : 0 ≤ rnd (s * rnd (v - m)) := by
+    have := hmono 0 (s * rnd (v - m)) (Rat.mul_nonneg hs h1)
+    rwa [h0] at this
+  unfold symbolRnd
+  simp only
+  split
+  · rename_i hr
+    have h3 : 0 ≤ rnd (rnd (s * rnd (v - m)) * (nb : Rat)) := by
+      have := hmono 0 _ (Rat.mul_nonneg h2 hnbq)
+      rwa [h0] at this
+    exact truncInt_bounds h3 (hlt _ h2 hr (hidem _))
+  · omega
+
+/-- exact arithmetic is an instance (so the hypotheses are satisfiable), and there
+`symbolRnd` is `symbol` -/
+example : symbolRnd id 1 0 4 (1/2) = 2 ∧ symbol (some 1) (some 0) 4 (some (1/2)) = 2 := by
+  decide +kernel
+example : ∀ r : Rat, 0 ≤ r → r < 1 → id r = r → id (r * ((4 : Int) : Rat)) < ((4 : Int) : Rat) := by
+  intro r _ h _
+  show r * ((4 : Int) : Rat) < ((4 : Int) : Rat)
+  have : r * ((4 : Int) : Rat) < 1 * ((4 : Int) : Rat) :=
+    Rat.mul_lt_mul_of_pos_right h (by decide)
+  simpa using this
+
 /-- with `scaling = 1/(max - min)` and `range_min = min` no sample of the data
 has a negative rescaled value -/
 theorem rescaled_nonneg (a b v : Rat) (hab : a < b) (hv : a ≤ v) : 0 ≤ (1 / (b - a)) * (v - a) := by
